@@ -22,7 +22,7 @@ def confirm(wt, mk):
     # without the change
     shutil.copy(os.path.join(out, 'demo.rs'), demo)
     rc, o = sh('cargo test --offline --test demo_%s 2>&1 | tail -25' % mk, wt)
-    res['demo_without'] = 'pass' if rc == 0 and 'test result: ok' in o else 'FAIL'
+    res['demo_without'] = 'pass' if 'test result: ok' in o and 'FAILED' not in o else 'FAIL'
     os.remove(demo)
     rc, o = sh('git apply %s' % patch, wt)
     assert rc == 0, 'patch does not apply: ' + o
@@ -33,7 +33,7 @@ def confirm(wt, mk):
         res['suite_ok'] = len(m) >= 2 and all(x[0] == 'ok' for x in m) and int(m[0][1]) == 94 and 'error' not in o
         shutil.copy(os.path.join(out, 'demo.rs'), demo)
         rc, o = sh('cargo test --offline --test demo_%s 2>&1 | tail -25' % mk, wt)
-        res['demo_with'] = 'FAIL' if rc != 0 else 'pass'
+        res['demo_with'] = 'FAIL' if ('test result: FAILED' in o or 'error: test failed' in o) else 'pass'
         res['demo_with_tail'] = '\n'.join(l for l in o.split('\n') if 'panicked' in l or 'left' in l or 'right' in l or 'test result' in l)[-600:]
     finally:
         sh('git checkout -- src', wt)
